@@ -166,7 +166,7 @@ CODEC_NOTE = ("Trusted: Coq kernel; translator for message numbers and the minFc
 PROPS = {
     "C01": {
         "modes": [{"name": "codec", "harness": "codec", "modelcheck": "codec"}],
-        "rule": "all 27 message types x {9P2000, 9P2000.u} x integer fields at 0/1/max-1/max/random x string length classes {0,1,2,255,256,65534,65535,random} with arbitrary bytes x 0..16 and 3000 (thorough: 8000) walk names/qids x payloads up to >64 KiB x buffers exact / one short / larger, dirty with a random byte; "
+        "rule": "all 27 message types x {9P2000, 9P2000.u} x integer fields at 0/1/max-1/max/random x string length classes {0,1,2,255,256,65534,65535,random} with arbitrary bytes x 0..16 and 3000 (thorough: 4000) walk names/qids x payloads up to >64 KiB x buffers exact / one short / larger, dirty with a random byte; "
                 "PackX, SetTag, Unpack, PackDir, UnpackDir, InitRread+SetRreadCount run on the real code; the oracle compares the bytes with spec_encode (the independent layout) and the decoded fields with the input; the correspondence compares the Coq models pack/set_tag/unpack/pack_dir/unpack_dir/rread_two_step with the Go functions. "
                 "Non-trivial/distinct: distinct (type, dialect, pack outcome, string-length classes) for messages; distinct content for stat records and two-step reads.",
         "level_text": "Coq theorems (Props/C01.v): for every message value representable on the wire, both dialects and ANY previous buffer contents, the model of each PackT*/PackR* constructor produces exactly spec_encode (size[4] type[1] tag[2] fields, size = packet length), refuses a buffer one byte short, SetTag changes only offsets 5-6, Unpack of those bytes (followed by anything) returns the same field values and consumes exactly the packet, stat records round-trip on their own, and InitRread/SetRreadCount equals the one-step Rread. Unbounded quantification over field values, string lengths 0..65535 and list lengths; the differential check ties the hand-written model to the Go functions on generated messages.",
@@ -251,14 +251,16 @@ PROPS = {
     },
     "C09": {
         "clauses": ["C09"],
-        "modes": [{"name": "clnt", "harness": "clnt", "modelcheck": "clnt"}],
+        "modes": [{"name": "clnt", "harness": "clnt", "modelcheck": "clnt"},
+                  {"name": "clntlog", "harness": "clntlog", "modelcheck": "clntref"}],
         "rule": "real Clnt against a scripted peer over a segment-exact fake transport: 1..5 concurrent calls with EVERY reply order (all permutations up to 4, random for 5), 16 and 64 concurrent callers in random order, reply kinds {matching R, Rerror, mismatched R} with payloads derived from each request, reply streams delivered whole, randomly split or one byte at a time; a soak of 3000 (thorough: 70000 > 65535) consecutive calls. Oracle: each call returns the payload derived from its own request and the outcome of its reply kind, tags seen by the peer pairwise distinct, soak never stalls and reuses tags; correspondence: the canonical schedule through the Coq client LTS gives the same outcome per call and conserves the tag pool. Non-trivial: >= 2 concurrent calls; distinct by content.",
         "level_text": "Coq theorems (Props/C09.v) over the client LTS (ReqAlloc/ReqFree, tag pool and Req cache, Rpcnb's critical section, hand-over to the send goroutine, recv's matching and delivery) for ANY number of callers, ANY schedule and ANY frames the peer sends: tags of live requests, cached Reqs and the pool are pairwise distinct and conserved (so a tag is available whenever fewer than 65535 calls are outstanding); the result a call returns is the frame matched with its own request, carrying its wire tag, received after the request was linked, and no frame goes to two requests; Rerror / wrong type / matching type map to error / error / success; a frame goes to the earliest-linked pending request with its tag (Tag interface FIFO).",
         "level_note": "Trusted: Coq kernel; translator (NOTAG, reqchan capacity 16); extraction + OCaml driver; Go harness. The tie is a correspondence on outcomes through a canonical schedule (the client has no schedule-point replay, unlike the server); frame contents are abstracted to (tag, kind); Fcall buffer recycling (tchan) is not modelled. Print Assumptions: closed under the global context.",
     },
     "C10": {
         "clauses": ["C10"],
-        "modes": [{"name": "clnt", "harness": "clnt", "modelcheck": "clnt"}],
+        "modes": [{"name": "clnt", "harness": "clnt", "modelcheck": "clnt"},
+                  {"name": "clntlog", "harness": "clntlog", "modelcheck": "clntref"}],
         "rule": "scripted sessions with 0..4 outstanding calls: the server-to-client stream cut after every byte offset (quick: every 7th), EOF, garbage / oversize (> 8*msize) / undersize frames, a reply with an unknown tag, Unmount during calls; a later call after each failure; callers held by the hook rpcnb.linked between linking their request and handing it to the send goroutine while the failure strikes. Every call must return within 3 s. Oracle: no call hangs, a call succeeds only if its complete reply was delivered, replies complete before the failure are delivered, later calls are refused; correspondence: canonical schedule through the Coq client LTS. Non-trivial: >= 2 calls; distinct by content.",
         "level_text": "Coq theorems (Props/C10.v) over the client LTS with its shutdown path (clnt.err, close(done), detaching the pending list, reporting the error to each pending request): in EVERY reachable state after a failure, while some call has not returned the client can take a step by itself and every such step decreases a bound, hence all outstanding and later calls return (no deadlock, no livelock); later calls are refused without touching the transport; success implies a complete reply frame was received; a reply matched before the failure is never replaced by the connection error; the receive loop turns bad frames into a failure and never reads with an empty buffer. 'Within bounded time' is rendered as a bound on the client's own steps.",
         "level_note": "Trusted: Coq kernel; translator; extraction + OCaml driver; Go harness with the hook rpcnb.linked. Wall-clock bounds are only measured by the harness (3 s deadline); Unmount is exercised by the oracle only (it sets clnt.err from the caller's goroutine, which the LTS models as a failure noticed by recv). Print Assumptions: closed under the global context.",
